@@ -94,8 +94,8 @@ def run_case(prop_id, case_json, seed, active_known):
         ex.deadline = t0 + case.budget_s
         explore.CURRENT = ex
         hx = HX("sym", explorer=ex, seed=seed)
-        from vf.state import StateGuard
-        guard = StateGuard()
+        from vf import state
+        guard = state.process_guard()
         try:
             while True:
                 guard.restore()
@@ -163,11 +163,8 @@ def replay_one(prop_id, case_json, model, expect_label=None):
     fn = getattr(mod, case.fn)
     hx = HX("replay", model=model)
     out = dict(outcome="passed", label=None, covers=[], error=None, log=[])
-    global _REPLAY_GUARD
-    if _REPLAY_GUARD is None:
-        from vf.state import StateGuard
-        _REPLAY_GUARD = StateGuard()
-    _REPLAY_GUARD.restore()
+    from vf import state
+    state.process_guard().restore()
     try:
         fn(hx, **case.params)
     except ReplayViolation as e:
